@@ -23,6 +23,8 @@ pub(crate) fn input_declaration_net(s: Span) -> IResult<Span, InputDeclaration> 
     let (s, a) = keyword("input")(s)?;
     let (s, b) = net_port_type(s)?;
     let (s, c) = list_of_port_identifiers(s)?;
+    // a dimension that is no unpacked_dimension ([], [string], [*]) belongs to the variable form
+    let (s, _) = peek(not(symbol("[")))(s)?;
     Ok((
         s,
         InputDeclaration::Net(Box::new(InputDeclarationNet { nodes: (a, b, c) })),
@@ -53,8 +55,9 @@ pub(crate) fn output_declaration_net(s: Span) -> IResult<Span, OutputDeclaration
     let (s, a) = keyword("output")(s)?;
     let (s, b) = net_port_type(s)?;
     let (s, c) = list_of_port_identifiers(s)?;
-    // an initial value belongs to list_of_variable_port_identifiers: "output reg q = 0" is the variable form
-    let (s, _) = peek(not(symbol("=")))(s)?;
+    // an initial value belongs to list_of_variable_port_identifiers: "output reg q = 0" is the variable form;
+    // so does a dimension that is no unpacked_dimension ([], [string], [*])
+    let (s, _) = peek(not(alt((symbol("="), symbol("[")))))(s)?;
     Ok((
         s,
         OutputDeclaration::Net(Box::new(OutputDeclarationNet { nodes: (a, b, c) })),
